@@ -90,7 +90,7 @@ def neighbor_for(session: dict):
         caps = [build.cap_mp(a, s) for a, s in FAMILIES] + [build.cap_asn4(65000), build.cap_refresh(), build.cap_erefresh()]
         if key[0]:
             caps.append(build.cap_addpath([(a, s, 3) for a, s in FAMILIES]))
-        neg = exa.negotiate(neighbor, build.open_with_caps(65000, 90, 0x0A000002, caps), exa.Direction.OUT)
+        neg = exa.negotiate(neighbor, build.open_with_caps(65000, 90, 0x0A000002, caps), exa.Direction.IN)  # the daemon makes its one Negotiated per session with Direction.IN (reactor/protocol.py) and encodes with it
         if bool(neighbor.group_updates) != key[1] or bool(neighbor.adj_rib_out) != key[2]:
             raise RuntimeError('harness: neighbor options not applied')
         for fam in FAMILIES:
